@@ -1,7 +1,6 @@
 package main
 
 import (
-
 	cose "github.com/veraison/go-cose"
 )
 
@@ -113,12 +112,12 @@ func clearRawBucket(u cose.UnprotectedHeader) {
 }
 
 type decoded struct {
-	kind  string
-	s1    *cose.Sign1Message
-	s1u   *cose.UntaggedSign1Message
-	sn    *cose.SignMessage
-	sg    *cose.Signature
-	cs    *cose.Countersignature
+	kind string
+	s1   *cose.Sign1Message
+	s1u  *cose.UntaggedSign1Message
+	sn   *cose.SignMessage
+	sg   *cose.Signature
+	cs   *cose.Countersignature
 }
 
 func decodeMsg(kind string, b []byte) (*decoded, error) {
@@ -344,7 +343,9 @@ func init() {
 			hlog := &spyLog{}
 			sv := vs[0].(*spyVerifier)
 			var herr error
-			if p := guard(func() { _, herr = cose.VerifyHashEnvelope(&spyVerifier{name: "v", alg: sv.alg, inner: sv.inner, log: hlog}, wire) }); p != "" {
+			if p := guard(func() {
+				_, herr = cose.VerifyHashEnvelope(&spyVerifier{name: "v", alg: sv.alg, inner: sv.inner, log: hlog}, wire)
+			}); p != "" {
 				ev["henvres"] = "panic"
 			} else {
 				ev["henvres"] = errClass(herr)
